@@ -39,7 +39,7 @@ def strategy(tier):
         "same": st.integers(0, 5).map(lambda v: v == 0),
         "tomos_a": st.lists(st.integers(1, 5), min_size=1, max_size=4, unique=True),
         "tomos_b": st.lists(st.integers(1, 5), min_size=1, max_size=4, unique=True),
-        "share": st.integers(0, 3),
+        "share": st.integers(0, 4),
         "k": st.integers(1, 5),
         "px": st.one_of(st.floats(0.1, 10, allow_nan=False), st.just(1.0)),
         "q": st.one_of(gen.euler(), st.integers(0, 23)),
@@ -74,6 +74,9 @@ def arrays(case):
         tb = ta[:-1] + [max(ta + tb) + 1]
     elif case["share"] == 3:
         tb = list(ta)
+    elif case["share"] == 4 and len(ta) >= 2:  # shifted overlap: {1,2,3} vs {2,3,4}
+        ta = sorted(ta)
+        tb = ta[1:] + [max(ta) + 1]
     rng = np.random.default_rng(len(A) * 131 + len(B))
     A[:, IX["tomo_id"]] = np.array(ta, float)[rng.integers(0, len(ta), len(A))]
     if case["same"]:
@@ -220,6 +223,21 @@ def run(case):
         if np.abs(M - e["rel"]).max() > 1e-6:
             out.fail("relative_orientation_angles_differ", f"query {key}: error {np.abs(M - e['rel']).max():.2e}")
             return out
+    # same extraction positions, refined shifts (different per particle): the answer must follow the complete positions
+    rng_r = np.random.default_rng(len(A) * 7 + k)
+    A3, B3 = A.copy(), B.copy()
+    A3[:, [IX["shift_x"], IX["shift_y"], IX["shift_z"]]] += np.round(rng_r.uniform(-3, 3, (len(A), 3)), 2)
+    if case["same"]:
+        B3 = A3.copy()
+    else:
+        B3[:, [IX["shift_x"], IX["shift_y"], IX["shift_z"]]] += np.round(rng_r.uniform(-3, 3, (len(B), 3)), 2)
+    exp3, tie3 = brute(A3, B3, k, px)
+    if not tie3:
+        s3 = stats_for(A3, B3)
+        if s3 is not None:
+            rows3 = table_rows(s3)
+            okr = set(rows3) == set(exp3) and all(rows3[q]["subtomo_nn_idx"] == e["nn_id"] and abs(rows3[q]["distance"] - e["dist"]) <= 1e-9 * max(1.0, abs(e["dist"])) for q, e in exp3.items())
+            out.check(okr, "refined_shifts:neighbours_or_distances_do_not_follow_complete_positions", "second call with the same x,y,z and other shifts")
     # metamorphic: rigid motion of every tomogram
     Q = oracle.cube_rotations()[case["q"]].astype(float) if isinstance(case["q"], int) else oracle.R_cc(*case["q"])
     A2, B2 = move(A, Q, case["t"]), move(B, Q, case["t"])
